@@ -259,3 +259,52 @@ Proof.
   unfold osc_lpad in Hid. replace (length id') with (length id) in Hid by lia.
   apply app_inv_head in Hid. exact Hid.
 Qed.
+
+(* ---- the strict decoder accepts only canonical encodings: whatever decodes is the encoding of
+   what it decodes to (no second spelling of the same content) ---- *)
+Lemma osc_take_drop_len n (r : bytes) : 0 <= n <= len r -> len (take n r) = n.
+Proof. intros H. apply len_take. exact H. Qed.
+
+Theorem osc_opt_encode_decode v piv kc kid :
+  wfb v -> osc_opt_decode v = Some (piv, kc, kid) -> osc_opt_encode piv kc kid = v.
+Proof.
+  intros Hw H. unfold osc_opt_decode in H. destruct v as [|f r].
+  { inversion H. reflexivity. }
+  apply wfb_cons in Hw. destruct Hw as [Hf Hr]. unfold is_byte in Hf.
+  destruct ((f <? 1) || (32 <=? f)) eqn:E1; [discriminate|].
+  destruct (5 <? f mod 8) eqn:E5; [discriminate|].
+  destruct (len r <? f mod 8) eqn:El; [discriminate|].
+  set (n := f mod 8) in *.
+  assert (Hn : len (take n r) = n) by (apply len_take; lia).
+  destruct ((f / 16) mod 2 =? 1) eqn:Eh.
+  - (* kid context present *)
+    destruct (drop n r) as [|s r2] eqn:Ed; [discriminate|].
+    destruct (len r2 <? s) eqn:Es; [discriminate|].
+    assert (Hs : 0 <= s < 256).
+    { assert (W : wfb (drop n r)) by (apply wfb_drop; exact Hr).
+      rewrite Ed in W. apply wfb_cons in W. destruct W as [W _]. exact W. }
+    assert (Hc : len (take s r2) = s) by (apply len_take; lia).
+    destruct ((f / 8) mod 2 =? 1) eqn:Ek.
+    + inversion H; subst piv kc kid. clear H. unfold osc_opt_encode.
+      rewrite Hn, Hc. replace (n + 16 + 8 =? 0) with false by lia.
+      replace (n + 16 + 8) with f by (unfold n; lia).
+      f_equal. cbn [app]. rewrite take_drop, <- Ed. apply take_drop.
+    + destruct (drop s r2) as [|x tl] eqn:Ed2; [|discriminate].
+      inversion H; subst piv kc kid. clear H. unfold osc_opt_encode.
+      rewrite Hn, Hc. replace (n + 16 + 0 =? 0) with false by lia.
+      replace (n + 16 + 0) with f by (unfold n; lia).
+      f_equal. rewrite app_nil_r.
+      assert (E2 : take s r2 = r2) by (rewrite <- (take_drop s r2) at 2; rewrite Ed2, app_nil_r; reflexivity).
+      rewrite E2, <- Ed. apply take_drop.
+  - destruct ((f / 8) mod 2 =? 1) eqn:Ek.
+    + inversion H; subst piv kc kid. clear H. unfold osc_opt_encode.
+      rewrite Hn. replace (n + 0 + 8 =? 0) with false by lia.
+      replace (n + 0 + 8) with f by (unfold n; lia).
+      f_equal. cbn [app]. apply take_drop.
+    + destruct (drop n r) as [|x tl] eqn:Ed; [|discriminate].
+      inversion H; subst piv kc kid. clear H. unfold osc_opt_encode.
+      rewrite Hn. replace (n + 0 + 0 =? 0) with false by lia.
+      replace (n + 0 + 0) with f by (unfold n; lia).
+      f_equal. cbn [app]. rewrite app_nil_r.
+      rewrite <- (take_drop n r) at 2. rewrite Ed, app_nil_r. reflexivity.
+Qed.
